@@ -586,6 +586,24 @@ impl World {
                     Ok(ret) => (ret, false),
                     Err(_) => (Ret::Panicked, true),
                 };
+                if !panicked && matches!(op, OpKind::RetainIdx(_) | OpKind::RetainIds(_) | OpKind::MutSet { .. }) {
+                    // C15 / C11: the predicate / the closure must have been shown the entry that lives in the
+                    // cache (its "actual key and value"), not a copy: every object that is still in the
+                    // cache is at the address it was shown at (neither operation moves entries)
+                    let shown = with_ctx(|c| std::mem::take(&mut c.shown));
+                    let cache = self.caches[*c].as_ref().unwrap();
+                    let limit = cache.len() + 1;
+                    for (k, v) in cache.iter().take(limit) {
+                        for (kt, ka, vt, va) in &shown {
+                            let bad_k = *kt != 0 && *kt == k.tok && *ka != k as *const MK as usize;
+                            let bad_v = *vt == v.tok && *va != v as *const MV as usize;
+                            if bad_k || bad_v {
+                                let what = if matches!(op, OpKind::MutSet { .. }) { "C11 the mutate closure" } else { "C15 the retain predicate" };
+                                with_ctx(|c| c.violations.push(format!("{} was handed a copy of entry {} instead of the entry stored in the cache (address differs)", what, k.id)));
+                            }
+                        }
+                    }
+                }
                 let sorted = matches!(op, OpKind::Clear);
                 // The crate's own code panicked — no user callback did, the allocator did not refuse, and the
                 // operation is not one that panics by contract: an arithmetic overflow / underflow (the
